@@ -71,7 +71,7 @@ func (bd *builder) freshHash() common.Uint256 {
 // genTxs draws 0..3 valid transactions for a block on top of path.
 // reuse lists side-chain hashes the block may withdraw again; carry lists
 // whole transactions (of a rolled-back block) that may be included unchanged.
-func (bd *builder) genTxs(t *rapid.T, path []*types.Block, reuse []common.Uint256, carry []interfaces.Transaction) (txs []interfaces.Transaction, kinds []string, fees common.Fixed64, hashes []common.Uint256) {
+func (bd *builder) genTxs(t *rapid.T, path []*types.Block, reuse, taken []common.Uint256, carry []interfaces.Transaction) (txs []interfaces.Transaction, kinds []string, fees common.Fixed64, hashes []common.Uint256) {
 	height := path[len(path)-1].Height + 1
 	u, err := node.Replay(path, bd.n.KeyIndexOf)
 	if err != nil {
@@ -111,6 +111,9 @@ func (bd *builder) genTxs(t *rapid.T, path []*types.Block, reuse []common.Uint25
 			}
 			for _, h := range xchain.WithdrawHashes(tx) {
 				for _, h2 := range hashes {
+					ok = ok && h != h2
+				}
+				for _, h2 := range taken { // already withdrawn again by an earlier block of this branch
 					ok = ok && h != h2
 				}
 			}
@@ -220,8 +223,8 @@ func feeOf(tx interfaces.Transaction, u node.UTXOSet) common.Fixed64 {
 	return in - out
 }
 
-func (bd *builder) block(t *rapid.T, path []*types.Block, reuse []common.Uint256, carry []interfaces.Transaction) (*planned, []common.Uint256) {
-	txs, kinds, fees, hashes := bd.genTxs(t, path, reuse, carry)
+func (bd *builder) block(t *rapid.T, path []*types.Block, reuse, taken []common.Uint256, carry []interfaces.Transaction) (*planned, []common.Uint256) {
+	txs, kinds, fees, hashes := bd.genTxs(t, path, reuse, taken, carry)
 	bd.salt++
 	b, err := bd.n.BuildBlock(node.BlockSpec{Parent: path[len(path)-1], Txs: txs, Fees: fees, Salt: bd.salt,
 		MinerKey: rapid.IntRange(0, 2).Draw(t, "miner")})
@@ -311,7 +314,7 @@ func TestNodeReorgDifferential(t *testing.T) {
 		bd.salt = 10
 		np := rapid.IntRange(0, 2).Draw(t, "nP")
 		for i := 0; i < np; i++ {
-			p, _ := bd.block(t, path, nil, nil)
+			p, _ := bd.block(t, path, nil, nil, nil)
 			setup = append(setup, p)
 			path = append(path, p.b)
 			c.Ops = append(c.Ops, fmt.Sprintf("P%d %v", i+1, p.kinds))
@@ -325,7 +328,7 @@ func TestNodeReorgDifferential(t *testing.T) {
 		versionOf := map[common.Uint256]byte{}
 		nonTrivial := false
 		for i := 0; i < a; i++ {
-			p, hs := bd.block(t, mpath, nil, nil)
+			p, hs := bd.block(t, mpath, nil, nil, nil)
 			mainB = append(mainB, p)
 			mpath = append(mpath, p.b)
 			lostHashes = append(lostHashes, hs...)
@@ -351,7 +354,7 @@ func TestNodeReorgDifferential(t *testing.T) {
 					reuse = append(reuse, h)
 				}
 			}
-			p, hs := bd.block(t, fpath, reuse, lostTxs)
+			p, hs := bd.block(t, fpath, reuse, usedAgain, lostTxs)
 			usedAgain = append(usedAgain, hs...)
 			forkB = append(forkB, p)
 			fpath = append(fpath, p.b)
